@@ -15,6 +15,7 @@
  * 51 Franklin Street, Fifth Floor, Boston, MA 02110-1301 USA.
  */
 
+#include <stdexcept>
 #include <string>
 
 #include "oomd/Log.h"
@@ -37,8 +38,36 @@ std::unordered_set<CgroupPath> PluginArgParser::parseCgroup(
   return res;
 }
 
+namespace {
+// std::sto* stop at the first character they cannot use: "3x", "1.5" (for an
+// integer) or "1e3" would silently be read as 3, 1 and 1. A number argument
+// must be a number as a whole.
+template <typename T, typename F>
+T parseWholeNumber(const std::string& str, F conv) {
+  size_t end_pos = 0;
+  T res = conv(str, &end_pos);
+  if (end_pos != str.size()) {
+    throw std::invalid_argument("not a number: \"" + str + "\"");
+  }
+  return res;
+}
+
+// Floating point arguments are plain decimals: std::stod would also take
+// "nan", "inf" and hexadecimal notation.
+template <typename T>
+T parseFiniteDecimal(const std::string& str) {
+  if (str.find_first_of("xXnNiI") != std::string::npos) {
+    throw std::invalid_argument("not a decimal number: \"" + str + "\"");
+  }
+  return parseWholeNumber<T>(str, [](const std::string& s, size_t* p) {
+    return static_cast<T>(std::stod(s, p));
+  });
+}
+} // namespace
+
 int PluginArgParser::parseUnsignedInt(const std::string& intStr) {
-  int res = std::stoi(intStr);
+  int res = parseWholeNumber<int>(
+      intStr, [](const std::string& s, size_t* p) { return std::stoi(s, p); });
   if (res < 0) {
     throw std::invalid_argument("must be non-negative");
   }
@@ -105,22 +134,27 @@ std::unordered_set<std::string> PluginArgParser::validArgNames() {
 
 template <>
 int64_t PluginArgParser::parseValue(const std::string& valueString) {
-  return std::stoull(valueString);
+  // stoll, not stoull: values of 2^63 and above must not wrap to negatives
+  return parseWholeNumber<int64_t>(
+      valueString,
+      [](const std::string& s, size_t* p) { return std::stoll(s, p); });
 }
 
 template <>
 int PluginArgParser::parseValue(const std::string& valueString) {
-  return std::stoi(valueString);
+  return parseWholeNumber<int>(
+      valueString,
+      [](const std::string& s, size_t* p) { return std::stoi(s, p); });
 }
 
 template <>
 double PluginArgParser::parseValue(const std::string& valueString) {
-  return std::stod(valueString);
+  return parseFiniteDecimal<double>(valueString);
 }
 
 template <>
 float PluginArgParser::parseValue(const std::string& valueString) {
-  return std::stof(valueString);
+  return parseFiniteDecimal<float>(valueString);
 }
 
 template <>
@@ -145,7 +179,9 @@ std::string PluginArgParser::parseValue(const std::string& valueString) {
 template <>
 std::chrono::milliseconds PluginArgParser::parseValue(
     const std::string& valueString) {
-  return std::chrono::milliseconds(std::stoll(valueString));
+  return std::chrono::milliseconds(parseWholeNumber<int64_t>(
+      valueString,
+      [](const std::string& s, size_t* p) { return std::stoll(s, p); }));
 }
 
 template <>
